@@ -6,6 +6,7 @@ import (
 
 	"visim/app"
 	"visim/core"
+	"visim/tape"
 	"visim/world"
 )
 
@@ -36,7 +37,7 @@ func c05Profile(flagCount uint32) app.Profile {
 		Sinks: true, Menus: true,
 		ExtErrPct: 6, OversizePct: 6, EmptyPct: 12, BigValues: true,
 		SingleRoute: true, RelTargets: true, RelWeight: 6,
-		MaxRows: 5, CatchShape: -1, NegMapProbe: true, Catch: true,
+		MaxRows: 5, CatchShape: -1, NegMapProbe: true, Catch: true, EndNodes: true,
 	}
 }
 
@@ -68,6 +69,7 @@ func runC05(c *core.Ctx) *core.Outcome {
 		}
 		t.End()
 		levelsBefore := len(r.m.Levels)
+		ncBefore := len(r.s.CallLog)
 		ob := r.request(in, persisted)
 		o.Counts["requests"]++
 		if persisted && i > 0 {
@@ -89,6 +91,18 @@ func runC05(c *core.Ctx) *core.Outcome {
 				o.Faults["ext_error"]++
 			}
 		}
+		for _, cl := range r.s.CallLog[ncBefore:] {
+			if !cl.Err && cl.Out == "" {
+				o.Faults["ext_empty"]++
+			}
+		}
+		// independent of the model: a result larger than its limit is never shown
+		if v := c05RejectedShown(a, r, ob.st.Out); v != "" {
+			return finishModel(o, c, r).Fail("over-limit-shown", i, nil, "request %d input %s: the output contains %s, an external result that was larger than the declared size of its symbol: %s", i, short(string(in)), short(v), short(ob.st.Out))
+		}
+		if v := c05RejectedKept(a, r); v != "" {
+			return finishModel(o, c, r).Fail("over-limit-kept-as-last-value", i, nil, "request %d input %s: the cache keeps %s (%d bytes) as its last value although it was larger than the declared size of its symbol and refused", i, short(string(in)), short(v), len(v))
+		}
 		// independent of the model: no stored value may exceed its declared limit
 		if r.s.Ca != nil {
 			for l, m := range r.s.Ca.Cache {
@@ -107,6 +121,12 @@ func runC05(c *core.Ctx) *core.Outcome {
 				// is still flagged) the catch node with the error shown
 				if ob.st.ExecErr == "" && !(last(ob.actPath) == "_catch" && ob.page.Prefix != "") {
 					return finishModel(o, c, r).Fail("over-limit-accepted", i, nil, "request %d input %s: an external result larger than the declared size was accepted (page %s)", i, short(string(in)), short(ob.st.Out))
+				}
+				// the session goes on after the refusal (restart from the top, or the catch node): what it
+				// shows from here on is not predicted by the model, but the refused result must not be in it
+				if v := c05Aftermath(t, a, r, persisted, o); v != nil {
+					o.V = v
+					return finishModel(o, c, r)
 				}
 			}
 			break
@@ -203,6 +223,80 @@ func findSym(r *modelRun, sym string) *struct{ Val string } {
 	for _, m := range r.m.Levels {
 		if v, ok := m[sym]; ok {
 			return &struct{ Val string }{v.Val}
+		}
+	}
+	return nil
+}
+
+// c05RejectedShown returns an external result that exceeded the declared size of its symbol and
+// nevertheless appears in out ("" if none). Results carry symbol name and call index, so one
+// result cannot be part of another.
+func c05RejectedShown(a *app.App, r *modelRun, out string) string {
+	if out == "" {
+		return ""
+	}
+	for _, cl := range r.s.CallLog {
+		x := a.ExtSym(cl.Sym)
+		if x == nil || x.Size == 0 || len(cl.Out) <= int(x.Size) || len(cl.Out) < 8 || cl.Err {
+			continue
+		}
+		if strings.Contains(out, cl.Out) {
+			return cl.Out
+		}
+	}
+	return ""
+}
+
+// c05RejectedKept reports an over-limit result that the session's cache object still holds as its
+// "last value" (the value a graceful session end appends to the final page, saved with the session).
+func c05RejectedKept(a *app.App, r *modelRun) string {
+	if r.s.Ca == nil || r.s.Ca.LastValue == "" {
+		return ""
+	}
+	for _, cl := range r.s.CallLog {
+		x := a.ExtSym(cl.Sym)
+		if x == nil || x.Size == 0 || len(cl.Out) <= int(x.Size) || cl.Err {
+			continue
+		}
+		if r.s.Ca.LastValue == cl.Out {
+			return cl.Out
+		}
+	}
+	return ""
+}
+
+// c05Aftermath keeps the real session going after a refused over-limit result, without the model.
+func c05Aftermath(t *tape.Tape, a *app.App, r *modelRun, persisted bool, o *core.Outcome) *core.Violation {
+	n := t.Range(0, 8)
+	for j := 0; j < n; j++ {
+		cur := ""
+		if p, _ := r.s.Position(); len(p) > 0 {
+			cur = p[len(p)-1]
+		}
+		in := genInput(t, a, cur, 1)
+		st := r.s.Request(in, persisted)
+		o.Counts["aftermath_requests"]++
+		if st.Panic != "" {
+			o.Probes["foreign_panic"]++
+			return nil
+		}
+		if v := c05RejectedShown(a, r, st.Out); v != "" {
+			return &core.Violation{Class: "over-limit-shown", Step: j, Msg: fmt.Sprintf("aftermath request %d input %s (after a refused over-limit result): the output contains %s, an external result that was larger than the declared size of its symbol: %s", j, short(string(in)), short(v), short(st.Out))}
+		}
+		if r.s.Ca != nil {
+			for l, m := range r.s.Ca.Cache {
+				for k, v := range m {
+					if lim, ok := r.s.Ca.Sizes[k]; ok && lim > 0 && len(v) > int(lim) {
+						return &core.Violation{Class: "over-limit-stored", Step: j, Msg: fmt.Sprintf("aftermath request %d: level %d holds %s with %d bytes under a declared limit of %d", j, l, k, len(v), lim)}
+					}
+				}
+			}
+		}
+		if !st.Cont {
+			o.Probes["aftermath_session_end"]++
+			if !persisted {
+				return nil
+			}
 		}
 	}
 	return nil
